@@ -513,7 +513,14 @@ func (rn *runner) batchOps(g gen, kp *keyPool, c chainCfg, height uint64, i int)
 		kinds := ""
 		for j := 0; j < size; j++ {
 			k := g.keyFrom(kp)
-			switch g.r.Intn(6) {
+			switch g.r.Intn(7) {
+			case 6:
+				// a tampered copy carrying the hash of the honest transaction that follows it
+				e := g.honestElem(k, c, height, g.r.Bool())
+				fs := sameHashForgeries(g, e.tx)
+				batch = append(batch, fs[g.r.Intn(len(fs))].tx, e.tx)
+				kinds += "CH"
+				j++
 			case 0:
 				e := g.forge(k, c, height, g.r.Intn(7))
 				batch = append(batch, e.tx)
